@@ -80,8 +80,9 @@ pub fn true_quantile(cdf: &dyn Fn(f64) -> f64, p: f64) -> Option<f64> {
         return Some(f64::NEG_INFINITY);
     }
     // invariant: cdf(lo) < p <= cdf(hi)
-    while hi - lo > 1 {
-        let mid = lo + (hi - lo) / 2;
+    // (differences in i128: key(+inf) - key(-inf) does not fit an i64, and the harness is built with overflow checks)
+    while (hi as i128) - (lo as i128) > 1 {
+        let mid = ((lo as i128) + ((hi as i128) - (lo as i128)) / 2) as i64;
         let c = cdf(unkey(mid));
         if c.is_nan() {
             return None;
